@@ -194,11 +194,24 @@ pub fn describe_calling_process(args: &[String]) -> ProcessArgs<CallingProcess> 
                     Some("show") => {
                         let command_line = parse_command_line(args);
                         let filename = if let Some(last_arg) = &command_line.last_arg {
-                            match last_arg.split_once(':') {
-                                Some((_, filename)) => Path::new(filename)
-                                    .file_name()
-                                    .map(|f| f.to_string_lossy().to_string()),
-                                None => None,
+                            // `<rev>:<path>` names a file. `:/<text>` searches the commit
+                            // messages, and a colon inside `@{<date>}` belongs to the revision.
+                            let mut depth = 0;
+                            let colon = last_arg.char_indices().find(|(_, c)| {
+                                match c {
+                                    '{' => depth += 1,
+                                    '}' => depth -= 1,
+                                    _ => {}
+                                }
+                                *c == ':' && depth == 0
+                            });
+                            match colon {
+                                Some((i, _)) if !last_arg.starts_with(":/") => {
+                                    Path::new(&last_arg[i + 1..])
+                                        .file_name()
+                                        .map(|f| f.to_string_lossy().to_string())
+                                }
+                                _ => None,
                             }
                         } else {
                             None
